@@ -131,13 +131,9 @@ impl ChunkGridTraits for RectangularChunkGrid {
                     Some(array_shape.div_ceil(s))
                 }
                 RectangularChunkGridDimension::Varying(s) => {
-                    let last_default = OffsetSize {
-                        offset: 0,
-                        // SAFETY: 1 is non-zero
-                        size: unsafe { NonZeroU64::new_unchecked(1) },
-                    };
-                    let last = s.last().unwrap_or(&last_default);
-                    if *array_shape == last.offset + last.size.get() {
+                    // An empty list of chunk sizes covers an extent of zero
+                    let end = s.last().map_or(0, |last| last.offset + last.size.get());
+                    if *array_shape == end {
                         Some(s.len() as u64)
                     } else {
                         None
@@ -223,13 +219,11 @@ impl ChunkGridTraits for RectangularChunkGrid {
             .map(|(index, chunks)| match chunks {
                 RectangularChunkGridDimension::Fixed(size) => Some(index / size.get()),
                 RectangularChunkGridDimension::Varying(offsets_sizes) => {
-                    let last_default = OffsetSize {
-                        offset: 0,
-                        // SAFETY: 1 is non-zero
-                        size: unsafe { NonZeroU64::new_unchecked(1) },
-                    };
-                    let last = offsets_sizes.last().unwrap_or(&last_default);
-                    if *index < last.offset + last.size.get() {
+                    // An empty list of chunk sizes has no chunks
+                    let end = offsets_sizes
+                        .last()
+                        .map_or(0, |last| last.offset + last.size.get());
+                    if *index < end {
                         let partition = offsets_sizes
                             .partition_point(|offset_size| *index >= offset_size.offset);
                         if partition <= offsets_sizes.len() {
